@@ -156,6 +156,13 @@ func VerifC04BatchReport(spec VerifC11Spec) (bool, []string, bool) {
 // VerifC04RunLoop is VerifC04Run with the number of concurrently running servers as a parameter
 // and the server instances in sorted order (Verbose), for the scripted-client scenarios.
 func VerifC04RunLoop(dir string, clientCommand []string, suiteYAML, cfgYAML string, knownFailing, knownFlaky []string, maxServers uint) (bool, string, []string, []string) {
+	return VerifC04RunLoopFlags(dir, clientCommand, suiteYAML, cfgYAML, knownFailing, knownFlaky, maxServers, true)
+}
+
+// VerifC04RunLoopFlags is VerifC04RunLoop with the runner's verbosity as a parameter: verbose =
+// false is the command line's default (no -v): nothing is logged before the report and the server
+// instances are visited in map order.  Verdict, FAILED / INFO lines and totals must not depend on it.
+func VerifC04RunLoopFlags(dir string, clientCommand []string, suiteYAML, cfgYAML string, knownFailing, knownFlaky []string, maxServers uint, verbose bool) (bool, string, []string, []string) {
 	suitePath := filepath.Join(dir, "suite.yaml")
 	cfgPath := filepath.Join(dir, "config.yaml")
 	if err := os.WriteFile(suitePath, []byte(suiteYAML), 0o600); err != nil {
@@ -174,7 +181,7 @@ func VerifC04RunLoop(dir string, clientCommand []string, suiteYAML, cfgYAML stri
 		MaxServers:           maxServers,
 		Parallelism:          1,
 		ServerBind:           "127.0.0.1",
-		Verbose:              true,
+		Verbose:              verbose,
 	}, logPrinter, errPrinter)
 	errText := ""
 	if err != nil {
